@@ -38,10 +38,12 @@ theorem commands_are_modelled :
     ∧ Gen.cmdTable = [(nmQuery, 1), (nmRegister, 2), (nmUnregister, 1)] := by decide
 
 /-- every request the six client methods send (observed on a recording socket) carries the magic `_work` checks and a command the registry
-knows after lower-casing -/
+knows after lower-casing, with as many arguments as that command takes -/
 theorem client_requests_understood :
     Gen.clientRequests.all (fun r => (r.1.toList.map Char.toNat == Gen.magic)
-      && (cmdOfName ((r.2.toList.map Char.toNat).map asciiLower)).isSome) = true := by decide
+      && (cmdOfName ((r.2.toList.map Char.toNat).map asciiLower)).isSome) = true
+    ∧ Gen.clientRequestArgs.all (fun r =>
+        (findCmd ((r.1.toList.map Char.toNat).map asciiLower) Gen.cmdTable).map Prod.snd == some r.2) = true := by decide
 
 /-- a server that re-registers every `REREGISTER_INTERVAL` is never stale under the default pruning interval -/
 theorem reregister_within_pruning : Gen.reregisterIntervalMs < Gen.defaultPruningTimeoutMs := by decide
